@@ -420,6 +420,11 @@ func (en *env) binary(x *ast.BinaryExpr, want types.Type) TV {
 	var hint types.Type
 	if !isCmp {
 		hint = want
+	} else {
+		// comparison: an untyped left operand (e.g. -(1 << (n-1)) <= imm) takes its type from the right one
+		if b0, ok := en.tryEval(x.Y); ok && b0.C == nil && b0.T != nil && !isUntyped(b0.T) {
+			hint = b0.T
+		}
 	}
 	a := en.eval(x.X, hint)
 	var b TV
@@ -481,6 +486,23 @@ func (en *env) binary(x *ast.BinaryExpr, want types.Type) TV {
 	return TV{V: res, T: a.T}
 }
 
+// tryEval evaluates e without a type hint; failures (ill-typed without context) are reported as !ok.
+func (en *env) tryEval(e ast.Expr) (tv TV, ok bool) {
+	defer func() {
+		if x := recover(); x != nil {
+			if _, isU := x.(unsupported); isU {
+				ok = false
+				return
+			}
+			panic(x)
+		}
+	}()
+	savedFacts := en.r.facts
+	tv = en.eval(e, nil)
+	en.r.facts = savedFacts
+	return tv, true
+}
+
 func (en *env) foldConst(op token.Token, a, b *big.Int) TV {
 	c := en.r.C()
 	z := new(big.Int)
@@ -532,6 +554,20 @@ func (en *env) foldConst(op token.Token, a, b *big.Int) TV {
 func (en *env) index(x *ast.IndexExpr) TV {
 	r := en.r
 	c := r.C()
+	// package-level arrays (constant tables) are indexed in place: no array value is materialised
+	if id, ok := x.X.(*ast.Ident); ok && en.pkg != nil {
+		if _, isVar := en.vars[id.Name]; !isVar {
+			if obj, ok := en.pkg.Types.Scope().Lookup(id.Name).(*types.Var); ok {
+				if at, ok := obj.Type().Underlying().(*types.Array); ok {
+					p := en.addrOf(id).V.(PtrV)
+					idx := en.coerceTo(en.eval(x.Index, types.Typ[types.Int]), types.Typ[types.Int])
+					it := r.toIdx(en.scalar(idx), idx.T)
+					loc := Loc{Heap: p.L.Heap + "[]", Idxs: append(append([]*smt.Term(nil), p.L.Idxs...), it), T: at.Elem()}
+					return TV{V: r.load(en.state(), loc), T: at.Elem()}
+				}
+			}
+		}
+	}
 	base := en.eval(x.X, nil)
 	// ghost / raw SMT arrays
 	if rs, ok := base.T.(*RawSort); ok && rs.S.Kind == smt.KArray {
